@@ -235,13 +235,13 @@ def dep_bound(spec: Spec, vals: dict, obs: dict, tid: str) -> Any:
     """earliest instant (seconds) the forward task may start: project start, pinned start, edges"""
     t = spec.task(tid)
     if t.start is not None:
-        return val(t.start, vals)
+        return spec.tval(t.start, vals)
     # a pinned start is inherited from the enclosing containers
     parts = tid.split(".")
     for k in range(len(parts) - 1, 0, -1):
         anc = spec.task(".".join(parts[:k]))
         if anc.start is not None:
-            return val(anc.start, vals)
+            return spec.tval(anc.start, vals)
     b: Any = 0
     for (succ, pred, gsec, onstart) in all_edges(spec):
         if succ != tid:
